@@ -866,6 +866,7 @@ pub struct ClientStats {
     pub bursts: u64,
     pub closure_panics: u64,
     pub adaptors: u64,
+    pub kept_matches_rechecked: u64,
     /// finished iterator histories: (history hash, features, nexts)
     pub iter_histories: Vec<(u64, u32, u32)>,
     pub range_observation_failures: u64,
@@ -928,6 +929,8 @@ struct Client<'a> {
     recs: Vec<OpRec>,
     c09: Vec<C09Viol>,
     stats: ClientStats,
+    /// a few Match values kept alive with what they looked like when they were returned
+    kept: Vec<(usize, Match, String)>,
 }
 
 enum Armed {
@@ -955,7 +958,7 @@ enum ArmedOut {
 
 impl<'a> Client<'a> {
     fn new(sh: &'a PassShared<'a>, tid: usize) -> Self {
-        Client { sh, tid, handles: Vec::new(), clones: Vec::new(), clone_srcs: RefCell::new(HashMap::new()), recs: Vec::new(), c09: Vec::new(), stats: ClientStats::default() }
+        Client { sh, tid, handles: Vec::new(), clones: Vec::new(), clone_srcs: RefCell::new(HashMap::new()), kept: Vec::new(), recs: Vec::new(), c09: Vec::new(), stats: ClientStats::default() }
     }
 
     fn spec(&self, reidx: u32) -> &'a RegexSpec {
@@ -1058,6 +1061,24 @@ impl<'a> Client<'a> {
             self.finish_handle(h);
         }
         self.clones.clear();
+        // a Match is a value: it must still look the way it looked when it was returned,
+        // whatever was searched or compiled since
+        let kept = std::mem::take(&mut self.kept);
+        for (op, m, was) in kept {
+            self.stats.kept_matches_rechecked += 1;
+            let now = fmt_match(&m);
+            if now != was {
+                self.c09.push(C09Viol {
+                    property: "C19",
+                    pass: self.sh.pass_no,
+                    thread: self.tid,
+                    op,
+                    clause: "match-value-changed-after-the-fact",
+                    expected: was,
+                    observed: format!("{} (same Match object, re-read at the end of the script)", now),
+                });
+            }
+        }
     }
 
     fn run_op(&mut self, ctx: &Ctx, i: usize, op: &Op) {
@@ -1364,6 +1385,10 @@ impl<'a> Client<'a> {
                     let obs = match m {
                         Some(m) => {
                             self.stats.matches += 1;
+                            if self.kept.len() < 8 {
+                                let f = fmt_match(&m);
+                                self.kept.push((i, m.clone(), f));
+                            }
                             NextOut::Some(m)
                         }
                         None => NextOut::None,
@@ -1512,6 +1537,23 @@ impl<'a> Client<'a> {
                             }
                         }
                     }
+                    // find / replace / replace_all / replace_all_with are built on find_iter: the
+                    // same answer must come out of iterating find_iter by hand (C09)
+                    if self.sh.kind == PassKind::Fresh {
+                        if let Some(exp) = self.expected_from_find_iter(&armed) {
+                            if exp != s {
+                                self.c09.push(C09Viol {
+                                    property: "C09",
+                                    pass: self.sh.pass_no,
+                                    thread: self.tid,
+                                    op: i,
+                                    clause: "built-on-iterator-disagrees-with-find_iter",
+                                    expected: format!("{} (spliced by hand over find_iter)", exp),
+                                    observed: s.clone(),
+                                });
+                            }
+                        }
+                    }
                     if self.sh.kind == PassKind::Fresh {
                         if let Some(shadow) = self.shadow_oneshot(&armed) {
                             if shadow != s {
@@ -1560,6 +1602,50 @@ impl<'a> Client<'a> {
             knobs: Knobs { fuel: self.sh.world.knobs.fuel.saturating_mul(10), strategy: Strategy::Serial, sched_seed: 0, max_switches: 0, pristine: false },
         };
         Some(w.to_json(&[]).set("k", J::s("op")).to_string())
+    }
+
+    /// What a convenience entry point must return if it is what it claims to be - a thin
+    /// layer over find_iter: computed by iterating find_iter by hand on a freshly compiled
+    /// Regex and a private copy of the text, in model mode. None = not applicable / unknown.
+    fn expected_from_find_iter(&mut self, a: &Armed) -> Option<String> {
+        let fuel = self.sh.world.knobs.fuel.saturating_mul(10);
+        match a {
+            Armed::Find(_, reidx, text) => {
+                let spec = self.spec(*reidx);
+                let copy = text.to_string();
+                let t: &'static str = unsafe { &*(copy.as_str() as *const str) };
+                let (r, _) = model_mode(fuel, || {
+                    let re = compile(spec).ok()?;
+                    let m = open_iter(&re, spec, t, 0).next();
+                    Some(match m {
+                        Some(m) => fmt_match(&m),
+                        None => "None".to_string(),
+                    })
+                });
+                r.ok().flatten()
+            }
+            Armed::Replace(_, reidx, text, tpl, all) if !tpl.contains('$') => {
+                let spec = self.spec(*reidx);
+                let copy = text.to_string();
+                let (r, _) = model_mode(fuel, || {
+                    let re = compile(spec).ok()?;
+                    let mut out = String::new();
+                    let mut last = 0;
+                    for m in re.find_iter(&copy) {
+                        out.push_str(&copy[last..m.start()]);
+                        out.push_str(tpl);
+                        last = m.end();
+                        if !*all {
+                            break;
+                        }
+                    }
+                    out.push_str(&copy[last..]);
+                    Some(format!("Str({:?})", out))
+                });
+                r.ok().flatten()
+            }
+            _ => None,
+        }
     }
 
     /// Re-run a one-shot op in model mode on a private copy of its haystack with freshly
@@ -1799,6 +1885,7 @@ impl ClientStats {
         self.bursts += o.bursts;
         self.closure_panics += o.closure_panics;
         self.adaptors += o.adaptors;
+        self.kept_matches_rechecked += o.kept_matches_rechecked;
         self.range_observation_failures += o.range_observation_failures;
         self.iter_histories.extend(o.iter_histories.iter().cloned());
     }
